@@ -27,8 +27,9 @@ def generate(ctx):
     for i in range(1400 if th else 128):
         conn = CONNS[i % 4]
         syn = SYNS[(i // 4) % 4]
-        dt = rng.choice([1.0, 0.5, 1.3])
-        K = rng.choice([1, 3, 5, 5, 6, 7, 12])
+        dt = rng.choice([1.0, 0.5, 1.3, 1.3, 1.7, 0.1])
+        K = rng.choice([1, 3, 5, 5, 6, 7, 12, 13])
+        dtype = rng.choice(["float64", "float64", "float32"])
         mode = rng.choice(["ongrid", "ongrid", "mixed", "zero", "homogeneous"])
         events = []
         T = 3 * K + 10
@@ -40,15 +41,16 @@ def generate(ctx):
                 events.append("reassign")
             else:
                 events.append("step")
-        # k * 1.3 / 1.3 is not always exactly k in floating point (6, 11, 12, 14 ...): with a zero tolerance such a delay is
-        # legitimately read as off the grid, so the longer delays at that step time always carry a tolerance
-        tol = 1e-3 if (K > 5 and dt == 1.3) else rng.choice([0.0, 1e-3])
+        # k * 1.3 / 1.3 is not always exactly k in floating point (6, 11, 12, 14 ...). In double precision the library's own
+        # dt * round(time / dt) reproduces k * dt bit for bit, so a zero tolerance still reads such a delay as on the grid; in
+        # single precision (python-float dt times a float32 tensor) it need not, and the longer delays carry a tolerance
+        tol = 1e-3 if (K > 5 and dt not in (1.0, 0.5) and dtype == "float32") else rng.choice([0.0, 0.0, 1e-3])
         substep = rng.random() < 0.12
         if substep:
             K, mode = 0, "mixed"
         yield {"conn": conn, "syn": syn, "dt": dt, "K": K, "tol": tol, "mode": mode,
                "interp": rng.choice(["previous", "nearest"]), "B": rng.randint(1, 3), "bias": rng.random() < 0.4,
-               "dtype": rng.choice(["float64", "float64", "float32"]), "p": rng.choice([0.2, 0.5, 0.8]),
+               "dtype": dtype, "p": rng.choice([0.2, 0.5, 0.8]),
                "seed": rng.randrange(1 << 30), "events": events,
                # reach the step time through the dt setter after construction (retimed connection) instead of the constructor
                "retimed_from": None if substep else rng.choice([None, None, 1.0, 0.5, 2.0]), "inplace": rng.random() < 0.5,
